@@ -179,6 +179,18 @@ Theorem dsa_verify_rejects_out_of_range :
     dsa_verify key r s data w = false.
 Proof. exact dsa_verify_range. Qed.
 
+(* byte level: an empty or undecodable signature is rejected with False (no exception, since /repo
+   ab7872a); a decodable one is judged by dsa_verify on the decoded (r, s) *)
+Theorem dsa_verify_rejects_malformed :
+  forall decode key sig data winv,
+    (sig = [] \/ decode sig = None) -> dsa_verify_bytes decode key sig data winv = false.
+Proof. exact dsa_verify_bytes_malformed. Qed.
+
+Theorem dsa_verify_bytes_is_verify_of_decoded :
+  forall decode key sig data winv r s, sig <> [] -> decode sig = Some (r, s) ->
+    dsa_verify_bytes decode key sig data winv = dsa_verify key r s data (winv s).
+Proof. exact dsa_verify_bytes_decoded. Qed.
+
 (* Python_DSAKey.generate(): p = 2kq+1, g = index^((p-1)//q): the group hypothesis holds for every
    generated key (given Fermat for the index, i.e. p prime), hence every signature made with a
    generated key verifies.  Before /repo b7d3c31 generate_qp() produced q not dividing p-1 and the
